@@ -401,7 +401,8 @@ class Wrapf(util.WrapperMixin):
         """
         self._push_splicer("enum")
         for node in node.enums:
-            self.wrap_enum(None, node, fileinfo)
+            if node.wrap.fortran:
+                self.wrap_enum(None, node, fileinfo)
         self._pop_splicer("enum")
 
     def wrap_enum(self, cls, node, fileinfo):
